@@ -166,3 +166,28 @@ Proof.
   - unfold integrity_sign, integrity_params in IS. cbn [In].
     destruct (su_integ s) as [|[[|[]|]|[[|[]|]|[|[]|]|]|]]; try discriminate; try congruence; auto.
 Qed.
+
+(* the algorithm number of an Open Session Response payload is the low SIX bits of its byte: bits 7:6 are reserved and
+   ignored, bit 5 is part of the number (an answer of "number + 32" is another algorithm, not the proposed one) *)
+Theorem alg_number_is_six_bits : forall tag d0 d1 d2 d3 d4 d5 d6 d7 a,
+  d4 < 256 ->
+  deserialise_alg tag [d0; d1; d2; d3; d4; d5; d6; d7] = Ok a -> ap_alg a = d4 mod 64 /\ ap_alg a < 64.
+Proof.
+  intros tag d0 d1 d2 d3 d4 d5 d6 d7 a H D. unfold deserialise_alg, guard in D.
+  cbn [length Nat.ltb Nat.leb get nth_error bind] in D.
+  destruct (negb (d0 =? tag)); [discriminate|].
+  destruct ((d3 =? 0) && negb (N.land d4 63 =? 0)); [discriminate|].
+  injection D as <-. cbn [ap_alg]. change 63 with (N.ones 6). rewrite N.land_ones. change (2 ^ 6) with 64.
+  split; [reflexivity|]. apply N.mod_lt. lia.
+Qed.
+Corollary alg_reserved_bits_ignored : forall tag d0 d1 d2 d3 d4 d5 d6 d7 hi,
+  d4 < 64 -> hi < 4 ->
+  deserialise_alg tag [d0; d1; d2; d3; d4 + 64 * hi; d5; d6; d7] = deserialise_alg tag [d0; d1; d2; d3; d4; d5; d6; d7].
+Proof.
+  intros tag d0 d1 d2 d3 d4 d5 d6 d7 hi H Hh. unfold deserialise_alg, guard.
+  cbn [length Nat.ltb Nat.leb get nth_error bind].
+  assert (E : N.land (d4 + 64 * hi) 63 = N.land d4 63).
+  { change 63 with (N.ones 6). rewrite !N.land_ones. change (2 ^ 6) with 64.
+    replace (d4 + 64 * hi) with (d4 + hi * 64) by lia. rewrite N.mod_add by lia. reflexivity. }
+  rewrite E. reflexivity.
+Qed.
